@@ -7,40 +7,6 @@ namespace Verif.C06
 
 variable {R : Type} {cfg : Cfg} {g : Dag} {f : Nat → List R → Option R} {s s' : State R} {e : Ev}
 
-/-- in a duplicate-free list with exactly one element satisfying `p`, every other element
-does not -/
-theorem countP_one_unique {l : List Nat} (hl : l.Nodup) {p : Nat → Bool} (h1 : l.countP p = 1)
-    {a : Nat} (ha : a ∈ l) (hpa : p a = true) : ∀ d ∈ l, d ≠ a → p d = false := by
-  induction l with
-  | nil => simp at ha
-  | cons y ys ih =>
-    rw [List.nodup_cons] at hl
-    intro d hd hda
-    simp only [List.countP_cons] at h1
-    by_cases hya : y = a
-    · subst hya
-      simp only [hpa, ↓reduceIte] at h1
-      have h0 : ys.countP p = 0 := by omega
-      have hd' : d ∈ ys := by
-        rcases List.mem_cons.mp hd with h | h
-        · exact absurd h hda
-        · exact h
-      have := (List.countP_eq_zero.mp h0) d hd'
-      simpa using this
-    · have ha' : a ∈ ys := by
-        rcases List.mem_cons.mp ha with h | h
-        · exact absurd h.symm hya
-        · exact h
-      have hpos : 0 < ys.countP p := List.countP_pos_iff.mpr ⟨a, ha', hpa⟩
-      have hy : p y = false := by
-        cases hpy : p y
-        · rfl
-        · exfalso; simp only [hpy, ↓reduceIte] at h1; omega
-      rcases List.mem_cons.mp hd with h | h
-      · subst h; exact hy
-      · simp only [hy, Bool.false_eq_true, ↓reduceIte, Nat.add_zero] at h1
-        exact ih hl.2 h1 ha' d h hda
-
 /-- the time stamps that an event other than `exec`/`dec` leaves alone -/
 structure FrameT (s s' : State R) : Prop where
   execAt : s'.execAt = s.execAt
@@ -52,11 +18,6 @@ theorem frameT_of_step (hw : WF g) (hi : Inv cfg g f s) (hs : step cfg g f s e =
     (he : ∀ a, e ≠ .exec a) (hd : ∀ a t, e ≠ .dec a t) : FrameT s s' :=
   ⟨(frameE_of_step hw hi hs he).execAt, (frameQ_of_step hs hd).decAt, (frameQ_of_step hs hd).zeroAt,
     step_now hs⟩
-
-theorem exists_dec_of_not_frame (h : ¬ ∀ a t, e ≠ .dec a t) : ∃ a t, e = .dec a t := by
-  false_or_by_contra
-  rename_i hne
-  exact h (fun a t h' => hne ⟨a, t, h'⟩)
 
 theorem invT_step (hw : WF g) (hi : Inv cfg g f s) (ht : InvT g s)
     (hs : step cfg g f s e = some s') : InvT g s' := by
@@ -75,7 +36,7 @@ theorem invT_step (hw : WF g) (hi : Inv cfg g f s) (ht : InvT g s)
         exact ht.hbStart t htn (fun h => hne ((hq.idle t).mpr h)) hdeps
       · intro a j ha h hdeps; rw [hf.execAt] at h; rw [hf.zeroAt]; exact ht.hbExec a j ha h hdeps
     · -- dec
-      obtain ⟨a, t, rfl⟩ := exists_dec_of_not_frame hdd
+      obtain ⟨a, t, rfl⟩ := exists_dec_of_not hdd
       obtain ⟨k, hph, hk, hh⟩ := step_dec.mp hs
       obtain ⟨ha, htn, hat, hlt, hnone, hpos, hidle⟩ := dec_facts hw hi hph hk
       -- `a` has executed
@@ -106,25 +67,41 @@ theorem invT_step (hw : WF g) (hi : Inv cfg g f s) (ht : InvT g s)
           split at h
           · rename_i hc; cases h; obtain ⟨hc1, _⟩ := hc; subst hc1; exact hexa
           · exact ht.hbDec d t' k' hdn h
-        · intro t' z ht'n h d hd
+        · intro t' z ht'n h d i hdn hdi
           dsimp only at h ⊢
           rw [upd_apply] at h
           split at h
           · rename_i htt; subst htt; cases h
             rw [upd2_apply]
-            by_cases hda : d = a
-            · simp [hda]
-            · simp only [hda, false_and, if_false]
+            by_cases hc : d = a ∧ i = k
+            · simp [hc]
+            · simp only [hc, if_false]
+              -- every other entry pointing to `t'` has been decremented: only one was open
               have hp := hi.pend t' ht'n
               rw [hp1] at hp
-              have := countP_one_unique (hw.deps_nodup t' ht'n) hp.symm hat (by simp [hnone]) d hd hda
-              cases h3 : s.decAt d t' with
-              | none => simp [h3] at this
-              | some k' => exact ⟨k', rfl, by have := ht.tsDec d t' k' h3; omega⟩
+              have hfl := openEdges_flip (P := passedP s.phase)
+                (P' := fun d' i' => if d' = a ∧ i' = k then true else passedP s.phase d' i') ha
+                (getElem?_lt hk) (by simp [passedP, hph, Phase.passed]) (by simp)
+                (by intro d' i' _ _ hne; simp [hne]) t'
+              rw [hk] at hfl
+              simp only [if_true] at hfl
+              have hz : openEdges g (fun d' i' => if d' = a ∧ i' = k then true else passedP s.phase d' i') t' = 0 := by
+                omega
+              have hpass := openEdges_zero hz d i hdn hdi
+              simp only [hc, if_false, passedP] at hpass
+              have hsome := hi.decIff d hdn i (getElem?_lt hdi)
+              rw [hpass] at hsome
+              cases h3 : s.decAt d i with
+              | none => rw [h3] at hsome; cases hsome
+              | some k' => exact ⟨k', rfl, by have := ht.tsDec d i k' h3; omega⟩
           · rename_i htt
-            obtain ⟨k', hk', hle⟩ := ht.hbZero t' z ht'n h d hd
+            obtain ⟨k', hk', hle⟩ := ht.hbZero t' z ht'n h d i hdn hdi
             refine ⟨k', ?_, hle⟩
-            rw [upd2_apply]; simp [htt, hk']
+            rw [upd2_apply]
+            split
+            · rename_i hc; obtain ⟨hc1, hc2⟩ := hc; subst hc1; subst hc2
+              rw [hnone] at hk'; cases hk'
+            · exact hk'
         · intro t' ht'n hne hdeps
           dsimp only at hne ⊢
           rw [upd_apply]
@@ -162,9 +139,9 @@ theorem invT_step (hw : WF g) (hi : Inv cfg g f s) (ht : InvT g s)
           split at h
           · rename_i hc; cases h; obtain ⟨hc1, _⟩ := hc; subst hc1; exact hexa
           · exact ht.hbDec d t' k' hdn h
-        · intro t' z ht'n h d hd
+        · intro t' z ht'n h d i hdn hdi
           dsimp only at h ⊢
-          obtain ⟨k', hk', hle⟩ := ht.hbZero t' z ht'n h d hd
+          obtain ⟨k', hk', hle⟩ := ht.hbZero t' z ht'n h d i hdn hdi
           refine ⟨k', ?_, hle⟩
           rw [upd2_apply]
           split
@@ -248,6 +225,6 @@ theorem invT_run (hw : WF g) {es : List Ev} : ∀ {s s' : State R}, Inv cfg g f 
 theorem invT_reachable (hw : WF g) {env0 : Nat} (h0 : env0 ≤ cfg.c)
     (hr : Reachable cfg g f env0 s) : InvT g s := by
   obtain ⟨es, h⟩ := hr
-  exact invT_run hw (inv_init env0 h0) (invT_init env0) h
+  exact invT_run hw (inv_init hw env0 h0) (invT_init env0) h
 
 end Verif.C06
